@@ -2170,14 +2170,23 @@ KERNELS = [
            perturb=[("insertion_order_counts", {"site": SITE_PPTX, "n": 2}),
                     ("constructor_sees_keyword_order", {"site": SITE_DESER})],
            bounds={"quick": {"set elements": "<= 3"}, "thorough": {"set elements": "<= 4"}},
-           symbolic=["every character of every style name (2 lower-case letters; equal names collapse by solver-decided equality)",
+           symbolic=["every character of every ZIP member name in a context's name set (lengths: prefix+1+suffix of the loop's own "
+                     "string tests, and 4; characters '-'..'z'), so the loop body's startswith/endswith/lower/== are decided by z3",
+                     "every character of every style name (2 lower-case letters; equal names collapse by solver-decided equality)",
                      "two permutations of the set's elements (position of each element, all-different)",
                      "field values of the deserialised dataclass"],
            choices=["number of names, absent / empty names, split of the names between content.xml and styles.xml, dataclass"],
-           stubs=["set(...) / set display / set comprehension at the site -> PermSet (iteration order = symbolic permutation); the site "
+           stubs=["_PptxContext -> object with _namelist = PermSet of the symbolic names, dict caches with solver-decided key equality, "
+                  "read_xml_root -> token naming the member read, _compute_slide_order -> two slide paths; the real "
+                  "_load_xml_files and get_comment_root run on it",
+                  "set(...) / set display / set comprehension at the site -> PermSet (iteration order = symbolic permutation); the site "
                   "expression (docx) or enclosing function (odt, serialization) is compiled from the live source with that rewrite",
                   "ODT context -> object exposing content_root / styles_root with iter(tag) and get(attr)"],
            assumptions=["hash-seed dependence enters only through iteration over set/frozenset (dicts iterate in insertion order)",
+                        "set-typed attributes are typed across modules through the class hierarchy (self._namelist / .namelist of "
+                        "ZipContext and every subclass); on other objects by annotated class, else by attribute name",
+                        "name-set loop: results are compared through the class's own accessors (get_comment_root for slides 1..2, cached "
+                        "roots as mappings); a dict filled in set order and only read by key is not an order leak",
                         "replay: generated DOCX/ODT read by the public reader in fresh interpreters with PYTHONHASHSEED = 0..23 "
                         "(stops at the first difference); full to_json() compared"],
            outside=["sets built inside third-party libraries; sites the scan's set-type inference cannot see (sets passed through "
